@@ -5,20 +5,19 @@ import "github.com/gammazero/nexus/v3/wamp"
 // C01: UNSUBSCRIBE and departures: stable ids, proper errors, no effect on
 // other sessions' subscriptions, no event after UNSUBSCRIBED.
 
-func vC01Churn(nOps int) {
+func vC01ChurnT(nOps int, topics []wamp.URI, matches []string, nSess int) {
 	b, err := newBroker(vNopLog{}, false, true, false, nil, nil)
 	vAssert("broker-created", err == nil)
 	sess := []*vSess{vNewSess(11, nil, nil, 32), vNewSess(12, nil, nil, 32), vNewSess(13, nil, nil, 32)}
 	pub := vNewSess(14, nil, nil, 32)
-	topics := []wamp.URI{"a.b", "a."}
-	matches := []string{wamp.MatchExact, wamp.MatchPrefix}
 	// reference: which session holds which of the two subscriptions, and their ids
-	var held [3][2]bool
-	var ids [2]wamp.ID
+	var held [3][3]bool
+	var ids [3]wamp.ID
+	nT := len(topics)
 	var live [3]bool = [3]bool{true, true, true}
 	for k := 0; k < nOps; k++ {
-		si := vChoice("op.sess", 3)
-		ti := vChoice("op.sub", 2)
+		si := vChoice("op.sess", nSess)
+		ti := vChoice("op.sub", nT)
 		req := wamp.ID(100 + k)
 		if !live[si] {
 			continue
@@ -26,7 +25,7 @@ func vC01Churn(nOps int) {
 		switch vChoice("op", 4) {
 		case 0: // subscribe
 			o := wamp.Dict{}
-			if ti == 1 {
+			if matches[ti] != wamp.MatchExact {
 				o["match"] = matches[ti]
 			}
 			b.subscribe(sess[si].s, &wamp.Subscribe{Request: req, Topic: topics[ti], Options: o})
@@ -38,7 +37,11 @@ func vC01Churn(nOps int) {
 				vAssert("stable-id-while-subscription-exists", sd.Subscription == ids[ti])
 			} else {
 				ids[ti] = sd.Subscription
-				vAssert("two-subscriptions-have-different-ids", ids[0] != ids[1] || ids[0] == 0)
+				for o := 0; o < nT; o++ {
+					if o != ti {
+						vAssert("subscriptions-have-different-ids", ids[o] != ids[ti])
+					}
+				}
 			}
 			held[si][ti] = true
 		case 1: // unsubscribe own or foreign subscription id
@@ -61,7 +64,7 @@ func vC01Churn(nOps int) {
 			}
 		case 2: // unknown subscription id
 			unk := vValidID("unknown.sub")
-			vAssume(vAnd(unk != ids[0], unk != ids[1]))
+			vAssume(vAnd(vAnd(unk != ids[0], unk != ids[1]), unk != ids[2]))
 			b.unsubscribe(sess[si].s, &wamp.Unsubscribe{Request: req, Subscription: unk})
 			vSyncBroker(b)
 			e, n := vFindMsg[*wamp.Error](sess[si].vDrain())
@@ -70,7 +73,7 @@ func vC01Churn(nOps int) {
 			b.removeSession(sess[si].s)
 			vSyncBroker(b)
 			live[si] = false
-			held[si][0], held[si][1] = false, false
+			held[si] = [3]bool{}
 			sess[si].vDrain()
 			vCover("session-left")
 		}
@@ -88,7 +91,7 @@ func vC01Churn(nOps int) {
 	for i := range sess {
 		got := sess[i].vDrain()
 		want := 0
-		for t := 0; t < 2; t++ {
+		for t := 0; t < nT; t++ {
 			n := 0
 			for _, m := range got {
 				if e, ok := m.(*wamp.Event); ok && e.Subscription == ids[t] && ids[t] != 0 {
@@ -107,5 +110,16 @@ func vC01Churn(nOps int) {
 	vCover("churn-checked")
 }
 
+func vC01Churn(nOps int) {
+	vC01ChurnT(nOps, []wamp.URI{"a.b", "a."}, []string{wamp.MatchExact, wamp.MatchPrefix}, 3)
+}
+
+// the same URI string subscribed under all three policies: three independent subscriptions
+func vC01ChurnSameURI(nOps, nSess int) {
+	vC01ChurnT(nOps, []wamp.URI{"a.b", "a.b", "a.b"}, []string{wamp.MatchExact, wamp.MatchPrefix, wamp.MatchWildcard}, nSess)
+}
+
 func Harness_C01_Churn_3() { vC01Churn(3) }
 func Harness_C01_Churn_4() { vC01Churn(4) }
+func Harness_C01_ChurnSameURI_3() { vC01ChurnSameURI(3, 2) }
+func Harness_C01_ChurnSameURI_4() { vC01ChurnSameURI(4, 3) }
